@@ -173,6 +173,7 @@ class C20(Check):
         'translator tools/gen/c20_tables.py (ast): constants, the if/elif ladder, lists, regexes (through '
         'tools/gen/relib.py into Re terms), bomDict, defaultencodings, read sizes',
         'not modelled, inputs of the model: email.message.Message (header and parameter parsing), '
+        'email.utils.collapse_rfc2231_value, '
         'html.parser.HTMLParser (+ the 6-line _MetaHTMLParser callback), io.StringIO/BytesIO seek/tell/read, '
         'tryEncodings (proved unreachable for the generated defaults table), the log, the url= parameter',
         'sre-faithfulness of Re.ms for the three regexes (validated each run by the correspondence on generated '
